@@ -337,6 +337,7 @@ def judge_text(v, s, origin, must=None):
 def check_rename_add_axes(v, m, ast, rng, text):
     arrays = [n for n, _ in ast["ins"] + ast["outs"]]
     fresh = [n for n in ["r0", "new.r1", "r_2", "q.q", "zz"] if n not in arrays]
+    before = str(m)
     # ---- rename
     mode = rng.choice(["some", "all", "swap", "none", "some"])
     if mode == "some":
@@ -373,8 +374,8 @@ def check_rename_add_axes(v, m, ast, rng, text):
                 check_keys(v, r, exp_ast, S, text + " |renamed")
         except Exception as e:  # noqa: BLE001
             v.bad(exc_sig(e, "rename:result-unusable"), f"after rename({ren}): {exc_msg(e)}", spec=text)
-        if str(m) != text and M.norm(str(m)) != M.norm(text):
-            v.bad("rename:mutated-receiver", f"receiver now prints {str(m)!r}", spec=text)
+        if str(m) != before:
+            v.bad("rename:mutated-receiver", f"receiver printed {before!r}, now prints {str(m)!r}", spec=text)
     # ---- add_axes with new names
     used = {a for _, ax in ast["ins"] + ast["outs"] for a in M.named(ax)}
     new_pool = [c for c in ["n", "m", "ax_9", "w"] if c not in used]
@@ -402,8 +403,8 @@ def check_rename_add_axes(v, m, ast, rng, text):
                 check_keys(v, r, exp_ast, S, text + f" |add_axes{tuple(new)}")
         except Exception as e:  # noqa: BLE001
             v.bad(exc_sig(e, "add_axes:result-unusable"), f"after add_axes{tuple(new)}: {exc_msg(e)}", spec=text)
-        if M.norm(str(m)) != M.norm(text):
-            v.bad("add_axes:mutated-receiver", f"receiver now prints {str(m)!r}", spec=text)
+        if str(m) != before:
+            v.bad("add_axes:mutated-receiver", f"receiver printed {before!r}, now prints {str(m)!r}", spec=text)
     # ---- add_axes with an existing name / with ':' must raise
     existing = rng.choice(M.out_axes(ast))
     for tag, args in (("existing", (existing,)), ("new+existing", (new[0], existing)), ("existing+new", (existing, new[0])),
